@@ -381,3 +381,218 @@ func first(l []string) string {
 	}
 	return l[0]
 }
+
+// TestC16WaitersOnly: an application that only uses SendCallAndWaitReplayCall never drains ReceiveReplyCall, so the
+// reply inbox (1024 deep, drop on overflow) fills up; the waiting callers must keep getting their own replies.
+func TestC16WaitersOnly(t *testing.T) {
+	e := vrun.LoadEnv()
+	meta := vrun.Meta{Property: "C16", Workload: "TestC16WaitersOnly", Total: e.Pick(6, 120),
+		Rule:        "1-8 concurrent callers perform 1100-1600 SendCallAndWaitReplayCall round trips in total on one connection; the application never calls ReceiveReplyCall or ReceiveCall (the reply inbox overflows after 1024 replies); the broker acks and replies at once, reply payload = 'reply:'+tag of the call it saw. Oracle: every call returns the reply built from its own call (request-call id = its call id, payload carries its tag). non-trivial = more than 1024 round trips completed; distinct = (callers, total)",
+		Assumptions: []string{"the reply inbox may drop replies on overflow (documented buffering); the waiters may not be affected by it"}}
+	vrun.Loop(t, meta, 2, func(c *vrun.Case) vrun.Result {
+		callers := []int{1, 2, 4, 8}[c.Rng.Intn(4)]
+		total := 1100 + c.Rng.Intn(500)
+		desc := map[string]any{"callers": callers, "round_trips": total}
+		var res vrun.Result
+		ok, dump := vrun.Watchdog(120*time.Second, func() { res = runWaitersOnly(callers, total) })
+		if !ok {
+			res = vrun.WatchdogVerdict("callers never returned")
+			if res.Verdict == vrun.Inconclusive {
+				res.Witness = map[string]any{"dump_head": dump[:min(len(dump), 5000)]}
+			}
+		}
+		res.Desc = desc
+		return res
+	})
+}
+
+func runWaitersOnly(callers, total int) vrun.Result {
+	w := world.New()
+	defer w.Close()
+	w.B.OnMsg = func(lc *broker.LinkCtx, m message.Message, unrel bool) bool {
+		call, ok := m.(*message.UpstreamCall)
+		if !ok {
+			return false
+		}
+		lc.Send(&message.UpstreamCallAck{CallID: call.CallID, ResultCode: message.ResultCodeSucceeded, ResultString: "OK"})
+		lc.Send(&message.DownstreamCall{CallID: "r-" + call.CallID, RequestCallID: call.CallID, SourceNodeID: "peer", Name: "reply", Type: "t", Payload: append([]byte("reply:"), call.Payload...)})
+		return true
+	}
+	w.Start()
+	conn, err := w.Connect(iscp.WithConnPingInterval(time.Hour))
+	if err != nil {
+		return vrun.Inconcl("connect: " + err.Error())
+	}
+	defer conn.Close(context.Background())
+	var wg sync.WaitGroup
+	var mu sync.Mutex
+	var firstBad *vrun.Result
+	done := 0
+	per := (total + callers - 1) / callers
+	for ci := 0; ci < callers; ci++ {
+		wg.Add(1)
+		go func(ci int) {
+			defer wg.Done()
+			for k := 0; k < per; k++ {
+				mu.Lock()
+				stop := firstBad != nil
+				mu.Unlock()
+				if stop {
+					return
+				}
+				tag := fmt.Sprintf("c%d-k%d", ci, k)
+				ctx, cancel := context.WithTimeout(context.Background(), 10*time.Second)
+				rep, err := conn.SendCallAndWaitReplayCall(ctx, &iscp.UpstreamCall{DestinationNodeID: "peer", Name: "wait-reply", Type: "t", Payload: []byte(tag)})
+				cancel()
+				mu.Lock()
+				switch {
+				case err != nil:
+					if firstBad == nil {
+						v := vrun.Violation("SendCallAndWaitReplayCall did not return its reply although the broker acknowledged and answered the call", "waiter-got-no-reply", map[string]any{"tag": tag, "error": err.Error(), "round_trips_completed_before": done})
+						firstBad = &v
+					}
+				case string(rep.Payload) != "reply:"+tag:
+					if firstBad == nil {
+						v := vrun.Violation("SendCallAndWaitReplayCall returned a reply that belongs to another call", "waiter-got-foreign-reply", map[string]any{"tag": tag, "reply": string(rep.Payload)})
+						firstBad = &v
+					}
+				default:
+					done++
+				}
+				mu.Unlock()
+			}
+		}(ci)
+	}
+	wg.Wait()
+	if firstBad != nil {
+		return *firstBad
+	}
+	r := vrun.Hold(fmt.Sprintf("%d|%d", callers, total), done > 1024)
+	r.Stat("round_trips_with_undrained_reply_inbox", int64(done))
+	return r
+}
+
+// TestC16CloseWhileWaiting: "a closed connection surfaces as an error to that caller" - callers that wait for an ack or
+// for a reply when the connection is closed get an error promptly instead of waiting for their own context.
+func TestC16CloseWhileWaiting(t *testing.T) {
+	e := vrun.LoadEnv()
+	meta := vrun.Meta{Property: "C16", Workload: "TestC16CloseWhileWaiting", Total: e.Pick(60, 3000),
+		Rule:        "1-8 callers of SendCallAndWaitReplayCall whose calls the broker acknowledges but never answers, 0-4 callers of SendCall / SendReplyCall whose acks are withheld, 0-2 goroutines blocked in ReceiveCall / ReceiveReplyCall; once the acks are out the connection is closed (0-3 ms later). Oracle: every caller returns a non-nil error within 3 s of real time (their contexts allow 60 s); nobody receives a reply. non-trivial = at least one caller was waiting for a reply after a positive ack; distinct = scenario tuple",
+		Assumptions: []string{"'promptly' is judged as 3 s of real time against a 60 s context"}}
+	vrun.Loop(t, meta, 0, func(c *vrun.Case) vrun.Result {
+		r := c.Rng
+		waiters, ackWaiters, receivers, delayUs := 1+r.Intn(8), r.Intn(5), r.Intn(3), r.Intn(3000)
+		desc := map[string]any{"reply_waiters": waiters, "ack_waiters": ackWaiters, "receivers": receivers, "close_after_us": delayUs}
+		var res vrun.Result
+		ok, dump := vrun.Watchdog(120*time.Second, func() {
+			res = runCloseWhileWaiting(waiters, ackWaiters, receivers, time.Duration(delayUs)*time.Microsecond)
+		})
+		if !ok {
+			res = vrun.WatchdogVerdict("the case never finished")
+			if res.Verdict == vrun.Inconclusive {
+				res.Witness = map[string]any{"dump_head": dump[:min(len(dump), 5000)]}
+			}
+		}
+		res.Desc = desc
+		return res
+	})
+}
+
+func runCloseWhileWaiting(waiters, ackWaiters, receivers int, delay time.Duration) vrun.Result {
+	w := world.New()
+	defer w.Close()
+	var acked sync.WaitGroup
+	acked.Add(waiters)
+	w.B.OnMsg = func(lc *broker.LinkCtx, m message.Message, unrel bool) bool {
+		switch t := m.(type) {
+		case *message.UpstreamCall:
+			if t.Name == "wait-reply" {
+				lc.Send(&message.UpstreamCallAck{CallID: t.CallID, ResultCode: message.ResultCodeSucceeded, ResultString: "OK"})
+				acked.Done()
+			}
+			return true // every other call (SendCall, SendReplyCall): the ack is withheld
+		}
+		return false
+	}
+	w.Start()
+	conn, err := w.Connect(iscp.WithConnPingInterval(time.Hour))
+	if err != nil {
+		return vrun.Inconcl("connect: " + err.Error())
+	}
+	ctx, cancel := context.WithTimeout(context.Background(), 60*time.Second)
+	defer cancel()
+	type outcome struct {
+		name string
+		err  error
+		got  bool
+	}
+	results := make(chan outcome, waiters+2*ackWaiters+receivers+1)
+	n := 0
+	start := func(name string, f func() (bool, error)) {
+		n++
+		go func() {
+			defer func() {
+				if p := recover(); p != nil {
+					results <- outcome{name: name, err: fmt.Errorf("PANIC: %v", p)}
+				}
+			}()
+			got, err := f()
+			results <- outcome{name: name, err: err, got: got}
+		}()
+	}
+	for i := 0; i < waiters; i++ {
+		start("SendCallAndWaitReplayCall", func() (bool, error) {
+			rep, err := conn.SendCallAndWaitReplayCall(ctx, &iscp.UpstreamCall{DestinationNodeID: "peer", Name: "wait-reply", Type: "t", Payload: []byte("w")})
+			return rep != nil, err
+		})
+	}
+	for i := 0; i < ackWaiters; i++ {
+		if i%2 == 0 {
+			start("SendCall", func() (bool, error) {
+				_, err := conn.SendCall(ctx, &iscp.UpstreamCall{DestinationNodeID: "peer", Name: "no-ack", Type: "t"})
+				return false, err
+			})
+		} else {
+			start("SendReplyCall", func() (bool, error) {
+				_, err := conn.SendReplyCall(ctx, &iscp.UpstreamReplyCall{RequestCallID: "x", DestinationNodeID: "peer", Name: "no-ack", Type: "t"})
+				return false, err
+			})
+		}
+	}
+	for i := 0; i < receivers; i++ {
+		if i%2 == 0 {
+			start("ReceiveReplyCall", func() (bool, error) { rc, err := conn.ReceiveReplyCall(ctx); return rc != nil, err })
+		} else {
+			start("ReceiveCall", func() (bool, error) { dc, err := conn.ReceiveCall(ctx); return dc != nil, err })
+		}
+	}
+	ackedCh := make(chan struct{})
+	go func() { acked.Wait(); close(ackedCh) }()
+	select {
+	case <-ackedCh:
+	case <-time.After(20 * time.Second):
+		conn.Close(context.Background())
+		return vrun.Inconcl("the broker did not see every call within 20 s")
+	}
+	time.Sleep(2*time.Millisecond + delay) // the acks reach the callers: they now wait for their replies
+	cctx, cc := context.WithTimeout(context.Background(), 20*time.Second)
+	conn.Close(cctx)
+	cc()
+	deadline := time.After(3 * time.Second)
+	for i := 0; i < n; i++ {
+		select {
+		case o := <-results:
+			if o.err == nil || o.got {
+				return vrun.Violation(o.name+" returned without an error although the connection was closed while it waited", "closed-connection-not-reported:"+o.name, map[string]any{"got_item": o.got})
+			}
+			if strings.HasPrefix(o.err.Error(), "PANIC") {
+				return vrun.Violation(o.name+" panicked when the connection was closed while it waited", "panic-on-close:"+o.name, map[string]any{"panic": o.err.Error()})
+			}
+		case <-deadline:
+			return vrun.Violation("a caller that waited for its ack or reply when the connection was closed is still blocked 3 s after Close returned (its context allows 60 s)", "closed-connection-not-reported:still-blocked", map[string]any{"returned": i, "callers": n})
+		}
+	}
+	r := vrun.Hold(fmt.Sprintf("%d|%d|%d", waiters, ackWaiters, receivers), waiters > 0)
+	r.Stat("callers_released_by_close", int64(n))
+	return r
+}
